@@ -15,6 +15,19 @@ Definition id_clean (s : str) : bool := negb (existsb (fun c => N.eqb c 9 || N.e
 
 Definition is_merge (s : strategy) : bool := match s with SMerge => true | _ => false end.
 
+(* "no Parent link is lost or invented": whatever the strategy and the route (create_db, update), the relations table of a
+   GFF3 database is the closure of the stored features' own Parent attributes - level 1: (p, id) for every Parent value p of
+   the row stored under id; level 2: the compositions of two such links starting at a stored feature; nothing else *)
+Definition parent_vals (r : row) : list str := match dget PARENT (r_attrs r) with Some l => l | None => [] end.
+Definition rels_spec_ok (t : tables) : bool :=
+  let rows := t_rows t in
+  let l1 := flat_map (fun r => map (fun p => mkRel p (r_id r) 1) (parent_vals r)) rows in
+  let l2 := flat_map (fun r => flat_map (fun y => map (fun z => mkRel (r_id r) (rel_child z) 2)
+                                                    (filter (fun z => str_eqb (rel_parent z) (rel_child y)) l1))
+                                        (filter (fun y => str_eqb (rel_parent y) (r_id r)) l1)) rows in
+  forallb (fun x => existsb (rel_eqb x) (l1 ++ l2)) (t_rels t) && forallb (fun x => existsb (rel_eqb x) (t_rels t)) (l1 ++ l2).
+Definition spec_of (o : result tables) : bool := match o with Ok t => rels_spec_ok t | Err _ => true end.
+
 Definition verdict (c : case) : Z :=
   match c with
   | Case strat force feats impl =>
@@ -24,7 +37,7 @@ Definition verdict (c : case) : Z :=
     | Err EOther => V_OUT
     | _ =>
       if negb (match m with Ok st => forallb (fun r => id_clean (r_id r)) (s_rows st) | _ => true end) then V_OUT else
-      if res_matches (is_merge strat) m impl then V_OK else V_BAD
+      if res_matches (is_merge strat) m impl && spec_of impl then V_OK else V_BAD
     end
     end
   | CaseGtf strat force feats impl =>
@@ -51,7 +64,7 @@ Definition verdict (c : case) : Z :=
         | Err EOther => V_OUT
         | _ =>
           if negb (match m with Ok st => forallb (fun r => id_clean (r_id r)) (s_rows st) | _ => true end) then V_OUT else
-          if res_matches (is_merge strat) m impl then V_OK else V_BAD
+          if res_matches (is_merge strat) m impl && (gtf || spec_of impl) then V_OK else V_BAD
         end
     end
     end
